@@ -1384,20 +1384,27 @@ XPath::doGetMatchScore(
     OpCodeMapPositionType   opPos =
         m_expression.getInitialOpCodePosition() + 2;
 
+    // The score of a pattern with alternatives is the highest
+    // score of the alternatives that match the node, since each
+    // alternative is a template rule of its own (XSLT 5.5).
     while(m_expression.getOpCodeMapValue(opPos) == XPathExpression::eOP_LOCATIONPATHPATTERN)
     {
         const OpCodeMapPositionType     nextOpPos = m_expression.getNextOpCodePosition(opPos);
 
-        score = locationPathPattern(executionContext, *context, opPos);
+        const eMatchScore   theScore =
+            locationPathPattern(executionContext, *context, opPos);
 
-        if(score == eMatchScoreNone)
+        if (theScore > score)
         {
-            opPos = nextOpPos;
+            score = theScore;
+
+            if (score == eMatchScoreOther)
+            {
+                break;
+            }
         }
-        else
-        {
-            break;
-        }
+
+        opPos = nextOpPos;
     }
 }
 
@@ -3094,6 +3101,13 @@ XPath::doStepPredicate(
         }
         while(XPathExpression::eOP_PREDICATE == nextStepType ||
               XPathExpression::eOP_PREDICATE_WITH_POSITION == nextStepType);
+
+        // The default priority of a pattern with a predicate is 0.5,
+        // whatever the node test is.
+        if (score != eMatchScoreNone)
+        {
+            score = eMatchScoreOther;
+        }
     }
 
     return score;
